@@ -17,7 +17,9 @@ CONF = dict(
  'timeservice_verif.go, one process per case); every configuration the service accepts is then run by the real sync.Run with the real SystemClock.Drift (family '
  'config of sync.run). All sync.config cases count as non-trivial. Further families of sync.run: deadline ties (up to three sources per scenario answer exactly at '
  'the deadline, delay = timeout: either outcome is accepted - the checker enumerates the resolutions, verdict relational), SyncTimeout = 0 (every immediate '
- 'answer and the local clock are ties: only the clauses that hold for every offset are judged), 9..16 sources per side. sync.extreme: the fixed wrap witness and a '
+ 'answer and the local clock are ties: only the clauses that hold for every offset are judged), 9..16 sources per side. single-source-hang (a side has exactly one source and it is late, blocked until the context ends, or ignores the context and comes back three intervals later). '
+ 'Every Do is observed with the virtual time that has passed since its round began; the oracle C01_deadline_ok demands that the one correction of a round is handed '
+ 'on no later than SyncTimeout after the round began, whatever the sources do (timing is not part of the Coq model: oracle only). sync.extreme: the fixed wrap witness and a '
  'family of both-side configurations with the peer cap in [2^62, 2^63) ns whose midpoint cannot wrap (one sign per round, all timely), judged with the bound at full '
  'strength. sync.wiring: go/ast check of runServer, runClient and createClocks of timeservice.go (one case per function, the observation is the list of broken '
  'rules). sync.clocks: generated configurations (0-3 NTP servers over IP or SCION, MBG/PHC/SHM reference clocks, 0-3 SCION peers) through the real loadConfig, '
